@@ -29,6 +29,8 @@ ALNUM = b"abcdefghijklmnopqrstuvwxyzABCDEFGHIJKLMNOPQRSTUVWXYZ0123456789_"
 
 def pregen():
     c20_ftoc.write_gen(repo=vlib.REPO, impl=vlib.IMPL)
+    from checks import C20f
+    C20f.pregen()
 
 
 def hx(b):
@@ -625,10 +627,17 @@ def run(ck):
                                   "every scenario explored still satisfies wrapper == direct call, and no sanitizer report was produced"},
                          nofail=True)
     ck.extra["input_distribution"] = dist
+    # second layer: the Fortran side itself (module cgns_f.F90 built with gfortran-12, Fortran driver programs, interface
+    # table vs the C definitions) -- checks/C20f.py, notes/C20f.md
+    from checks import C20f
+    C20f.run_extra(ck)
 
 
 def replay(ck, path):
     r = json.load(open(path))
+    if r.get("level") in ("fortran", "link", "fortran-build", "fortran-compile"):
+        from checks import C20f
+        return C20f.replay(ck, path)
     vlib.build_impl()
     if r.get("level") == "wrapper" and "script" in r:
         hw = vlib.build_harness("c20_wrap", ["c20_wrap.c"])
